@@ -35,6 +35,7 @@ func runC17(l *core.Ledger) {
 	l.Rule("C17-B3", "receiver, call-data type, raw entry point, ServerStream, PerNodeArgFn and call options follow the method's options")
 	l.Rule("C17-B4", "server reply discipline per handler kind; defer ctx.Release() first")
 	l.Rule("C17-B5", "QuorumSpec method set and signatures match the descriptor")
+	l.Rule("C17-B6", "in the templates, the client stubs' Method string and the server's RegisterHandler name are the same expression over the method (variables resolved, simple template functions inlined)")
 	l.Rule("C17-U1", "every committed *_gorums.pb.go equals the expansion of the current templates for its descriptor (token streams per declaration, comments aside)")
 	l.Rule("C17-U1b", "the reference funcMap agrees with the generator's: same keys, same option dependencies; hasMethodOption / hasAllMethodOption / countMethodOptions have their defining loop shape")
 	l.Rule("C17-U2", "declarations of the staticCode literal == non-import declarations of the dev package's static files; pkgIdentMap values are exported members of their packages")
@@ -52,6 +53,7 @@ func runC17(l *core.Ledger) {
 	c17FuncMapAgreement(l, g)
 	c17U1(l, g, gm)
 	c17U2(l, g)
+	c17B6(l, g)
 }
 
 // ---------------------------------------------------------------------------
